@@ -24,6 +24,7 @@ package netann
 
 import (
 	"bytes"
+	"errors"
 	"image/color"
 	"net"
 
@@ -129,8 +130,33 @@ type c20KeyEntry struct {
 
 var c20KeyTab []c20KeyEntry
 
+// c20KeyFacts: what the harness knows about the key fields it generated
+// (bytes, and whether they are a point on the curve; see c20Key).
+type c20KeyFact struct {
+	b       [33]byte
+	onCurve bool
+}
+
+var c20Facts []c20KeyFact
+
+var c20ErrBadKey = errors.New("c20: malformed public key")
+
 // vC20ParsePubKey replaces btcec.ParsePubKey: an opaque handle for the bytes.
+// It fails like the real one for a format byte other than 02/03 and for
+// x coordinates the harness knows are not on the curve.
 func vC20ParsePubKey(b []byte) (*btcec.PublicKey, error) {
+	bad := b[0] != 2 && b[0] != 3
+	for i := range c20Facts {
+		f := &c20Facts[i]
+		d := uint8(0)
+		for j := 1; j < 33; j++ { // x coordinate
+			d |= f.b[j] ^ b[j]
+		}
+		bad = bad || (d == 0 && !f.onCurve)
+	}
+	if bad {
+		return nil, c20ErrBadKey
+	}
 	p := new(btcec.PublicKey)
 	cp := make([]byte, len(b))
 	copy(cp, b)
@@ -172,8 +198,10 @@ func c20Ideal() {
 	vInjective("dsha")
 	vAssumption("ideal signatures: wire bytes are F(digest, key, corruption) for one collision-free F; they verify for (d, k) iff they equal F(d, k, none). Natively F is ECDSA under fixed test keys followed by the xor")
 	vAssumption("ideal hash: chainhash.DoubleHashB is one collision-free function of the byte string")
-	vAssumption("ParsePubKey/Sig.ToSignature succeed on every input in the symbolic run; natively a malformed key/signature is an error, which the oracle classes as 'does not verify' as well")
+	vAssumption("Sig.ToSignature succeeds on every input in the symbolic run; natively a malformed signature is an error, which the oracle classes as 'does not verify' as well")
+	vAssumption("ParsePubKey fails iff the format byte is not 02/03 or the x coordinate is off the curve; the latter is a precomputed fact for the corrupted test keys (checked natively)")
 	c20KeyTab = nil
+	c20Facts = nil
 	c20SigUF = vChoice("sigmodel", 2) == 1
 	vUnwind(512)
 }
@@ -252,15 +280,34 @@ func (s c20SigSlot) make(dThis, dOther []byte) lnwire.Sig {
 	return c20Sign(d, s.signer, s.pos, s.val)
 }
 
-// c20Key is a key field of a message: one of the test keys with byte number
-// pos xored with val (a single-byte corruption; val == 0: a genuine key).
+// c20OnCurve[i] bit p-1: test key i with the lowest bit of byte p (1..32, the
+// x coordinate) flipped is still the x coordinate of a curve point.
+var c20OnCurve = [4]uint32{0xe3b5a441, 0xb9c30645, 0x8d778226, 0xd551e88c}
+
+// c20Key is a key field of a message: one of the test keys with a single-byte
+// corruption (val == 0: the genuine key): the format byte xor any value, or
+// one byte of the x coordinate with its lowest bit flipped (for those the
+// harness knows whether the result is on the curve, which the symbolic
+// ParsePubKey cannot compute).
 func c20Key(name string) [33]byte {
 	i, pos, val := vU8(name+".idx"), vU8(name+".pos"), vU8(name+".val")
-	vAssume(i < 4 && pos < 33)
+	vAssume(i < 4 && pos < 33 && (pos == 0 || val <= 1))
 	k := c20Pub(i)
 	for j := range k {
 		hit := byte((uint16(uint8(j)^pos) - 1) >> 8) // 0xff iff j == pos
 		k[j] ^= val & hit
+	}
+	b0, b1 := -uint32(i&1), -uint32((i>>1)&1)
+	t := c20OnCurve[0] ^ (c20OnCurve[0]^c20OnCurve[1])&b0 ^ (c20OnCurve[0]^c20OnCurve[2])&b1 ^
+		(c20OnCurve[0]^c20OnCurve[1]^c20OnCurve[2]^c20OnCurve[3])&b0&b1
+	on := pos == 0 || val == 0 || (t>>((pos-1)&31))&1 == 1
+	if vNative() {
+		_, err := btcec.ParsePubKey(k[:])
+		if (err == nil) != (on && (k[0] == 2 || k[0] == 3)) {
+			panic("c20: on-curve table is wrong")
+		}
+	} else {
+		c20Facts = append(c20Facts, c20KeyFact{k, on})
 	}
 	return k
 }
@@ -675,14 +722,22 @@ func c20Addrs(n *c20Node) ([]net.Addr, []byte, bool) {
 }
 
 // c20SymNode: a node announcement with symbolic field values; with rel != nil
-// its feature and address shapes are the same as or the next after rel's.
+// its shape is related to rel's: kind 0 the same, 1 one more byte of extra
+// data, 2 the next feature vector, 3 the next address list.
 func c20SymNode(p string, rel *c20Node, nextra int) *c20Node {
 	n := &c20Node{ts: vU32(p + "ts"), port: vU16(p + "port")}
 	if rel == nil {
 		n.feat, n.addrs = vChoice(p+"feat", c20NFeat), vChoice(p+"addrs", c20NAddr)
 	} else {
-		n.feat = (rel.feat + vChoice(p+"dfeat", 2)) % c20NFeat
-		n.addrs = (rel.addrs + vChoice(p+"daddrs", 2)) % c20NAddr
+		n.feat, n.addrs, nextra = rel.feat, rel.addrs, len(rel.extra)
+		switch vChoice(p+"kind", 4) {
+		case 1:
+			nextra++
+		case 2:
+			n.feat = (rel.feat + 1) % c20NFeat
+		case 3:
+			n.addrs = (rel.addrs + 1) % c20NAddr
+		}
 	}
 	copy(n.rgb[:], vBytes(p+"rgb", 3))
 	copy(n.alias[:], vBytes(p+"alias", 32))
@@ -752,11 +807,7 @@ func VerifC20NodeAnn() {
 	c20Ideal()
 	n := c20SymNode("", nil, C20_EXTRA*vChoice("extra.len", 2))
 	n.id = c20Key("node")
-	no := len(n.extra)
-	if vChoice("other", 2) == 1 {
-		no++
-	}
-	o := c20SymNode("o.", n, no)
+	o := c20SymNode("o.", n, 0)
 	copy(o.id[:], vBytes("o.id", 33))
 	vAssume(!c20NodeSame(n, o))
 	slot := c20Slot("sig")
@@ -783,9 +834,8 @@ func VerifC20NodeAnn() {
 // injective in features, timestamp, node id, colour, alias, addresses, extra.
 func VerifC20NodeAnnDigest() {
 	vUnwind(512)
-	ea := vChoice("a.extra.len", C20_EXTRA+1)
-	a := c20SymNode("a.", nil, ea)
-	b := c20SymNode("b.", a, (ea+vChoice("b.dextra", 2))%(C20_EXTRA+1))
+	a := c20SymNode("a.", nil, vChoice("a.extra.len", C20_EXTRA+1))
+	b := c20SymNode("b.", a, 0)
 	copy(a.id[:], vBytes("a.id", 33))
 	copy(b.id[:], vBytes("b.id", 33))
 	da, err := c20NodeWire(a).DataToSign()
